@@ -26,6 +26,8 @@ macro_rules! impl_backend {
             fn update_memory(&self, _mem: GM<()>) -> Result<()> { Ok(()) }
             fn queues_per_thread(&self) -> Vec<u64> { vec![1] }
             fn handle_event(&self, device_event: u16, _evset: EventSet, vrings: &[Self::Vring], thread_id: usize) -> Result<()> {
+                // schedule point W2 (worker read the kick, handler not yet entered): a nested control message
+                crate::handler::verif::nested_control();
                 let g = vgm::vg();
                 g.he_calls += 1;
                 g.he_event = device_event;
